@@ -153,7 +153,7 @@ Definition run_proof (bs : bytes) : proof_result :=
   end.
 
 (* ---------- the writer side of the wire format (wire.MsgMerkleBlock.BtcEncode) ---------- *)
-Fixpoint pack_byte (bits : list bool) (i : nat) (w : N) : N :=
+Fixpoint pack_byte (bits : list bool) (i : nat) (w : N) {struct i} : N :=
   match i, bits with
   | S i', b :: r => (if b then w else 0) + pack_byte r i' (2 * w)
   | _, _ => 0
